@@ -776,7 +776,26 @@ def assume(c):
     p.add(t)
 
 
+FORK_SHAPES = {}
+
+
+def _shape(t):
+    """the condition with every numeral and generated suffix removed (file ids, fresh-name counters differ between
+    executions of the same path; the structure does not)"""
+    import hashlib
+
+    toks = re.findall(r"[A-Za-z_!#<>=+*/.-]+", re.sub(r"[0-9]+", "#", t.sexpr()))
+    return hashlib.sha1(" ".join(sorted(toks)).encode()).hexdigest()  # insensitive to the simplifier's argument order
+
+
 def decide(t):
+    r = _decide(t)
+    if os.environ.get("PYVC_TRACE_DECIDE"):
+        print("DECIDE", len(cur().trace), r, str(simp(t)).replace("\n", " ")[:140], flush=True)
+    return r
+
+
+def _decide(t):
     p = cur()
     t = simp(t)
     if z3.is_true(t):
@@ -789,6 +808,15 @@ def decide(t):
         if tid0 in p.decided:
             return p.decided[tid0]
         v = p.prefix[i]
+        if i == len(p.prefix) - 1:
+            # the decision this path was forked for must be the one re-taken here (same shape of condition) ...
+            want = FORK_SHAPES.get(tuple(p.prefix))
+            if want is not None and want != _shape(t):
+                raise Undecided("path replay diverged: the re-execution does not repeat the decision sequence of the run "
+                                "that forked it")
+            # ... and a branch that was kept only because the solver could not decide it then may be refuted now
+            if not p.feasible(t if v else z3.Not(t)):
+                raise Infeasible()
         p.trace.append(v)
         p.add(t if v else z3.Not(t))
         p.decided[tid0] = v
@@ -801,7 +829,9 @@ def decide(t):
     if not can_t and not can_f:
         raise Infeasible()
     if can_t and can_f:
-        p.forks.append(p.trace + [False])
+        fk = p.trace + [False]
+        p.forks.append(fk)
+        FORK_SHAPES[tuple(fk)] = _shape(t)
         v = True
     else:
         v = can_t
@@ -1353,6 +1383,7 @@ def explore(name, body, max_paths=4000, on_exception=None):
     global _cur
     res = UnitResult(name)
     work = [[]]
+    FORK_SHAPES.clear()
     agg = {}
     t0 = time.time()
     while work:
